@@ -367,3 +367,11 @@ def zero_read_leaves_loop(b, c):
                 if int(vv) == 0 and c.bb not in b.reachable([tg]):
                     return True
     return False
+
+
+def gate_of(b, loop_blocks, bb):
+    """`i < len && <thing at bb>`: the nearest comparison block inside the loop that dominates bb (the bounds test that may
+    legitimately short-circuit it); bb itself when there is none"""
+    cands = [i for i, j, st in b.stmts() if i in loop_blocks and i != bb and st["r"]["k"] == "Bin" and st["r"]["op"] in ("Lt", "Gt", "Le", "Ge")
+             and b.dominates(i, bb)]
+    return max(cands, key=lambda g: len(b.dom.get(g, ()))) if cands else bb
